@@ -18,6 +18,9 @@
 //   flush         gQtLogger.flush()
 //   own:T:N       a local Logger (not the singleton) with sendToFile, N messages, destroyed at the end of the op
 //   pat:K         print PatternFormatter(K).format(fixed message) on stdout
+//   pipe:K:T:N    a local Logger with filters + formatter K (0 category rules + pattern, 1 regexp filter + JSON, 2 duplicate filter +
+//                 pretty, 3 level filter + function formatter + sequence numbers) sending to template T; N messages of mixed
+//                 categories / levels / repeated texts; destroyed at the end of the op
 //   app           construct the QCoreApplication (main phase only; lives until main returns)
 //   restore       Logger::restorePreviousMessageHandler()
 // ending:  ret:C  return C from main | exit:C  std::exit(C) in main | fatal  qFatal() | qexit:C  std::quick_exit(C)
@@ -124,6 +127,24 @@ void runOps(const QByteArray &ops, bool early, QScopedPointer<QCoreApplication> 
             l.format(QStringLiteral("%{message}")).sendToFile(pathOf(arg(f, 1)));
             for (int i = 0, n = arg(f, 2); i < n; ++i)
                 l.processMessage(QtInfoMsg, QMessageLogContext("own.cpp", i, "void g()", "own"), nextText("own"));
+        } else if (k == "pipe") {
+            Logger l;
+            switch (((arg(f, 1) % 4) + 4) % 4) {
+            case 0: l.filterCategory(QStringLiteral("net.*=false\n*.critical=true\napp.debug=false")).format(QStringLiteral("%{category} %{type:>8} %{message}")); break;
+            case 1: l.filter(QStringLiteral("^pipe-[a-m]")).formatToJson(true); break;
+            case 2: l.filterDuplicate().formatPretty(false, 10); break;
+            default: l.filterLevel(QtWarningMsg).addSeqNumber().format([](const LogMessage &m) -> QString {      // explicit: no QStringBuilder expression may leave the lambda
+                         return m.attribute(QStringLiteral("seq_number")).toString() + QLatin1Char(' ') + m.message(); }); break;
+            }
+            l.sendToFile(pathOf(arg(f, 2)));
+            const QtMsgType types[4] = { QtDebugMsg, QtWarningMsg, QtInfoMsg, QtCriticalMsg };
+            const char *const cats[3] = { "net.http", "app", "default" };
+            QString text;
+            for (int i = 0, n = arg(f, 3); i < n; ++i) {
+                if (i % 3 != 2)
+                    text = nextText("pipe");      // every third message repeats the previous text
+                l.processMessage(types[i % 4], QMessageLogContext("pipe.cpp", i, "void h()", cats[i % 3]), text);
+            }
         } else if (k == "pat") {
             PatternFormatter pf(QString::fromLatin1(kPatterns[((arg(f, 1) % kPatternCount) + kPatternCount) % kPatternCount]));
             LogMessage lmsg(QtWarningMsg, QMessageLogContext("/src/dir/file.cpp", 42, "void ns::f(int)", "net.http"), QStringLiteral("abc"));
